@@ -1026,19 +1026,13 @@ def case_mapdf(ctx, case):
     for pr in filter(None, model.split(',')):
         lab, src = map(int, pr.split(':'))
         want_model.append((lab, single[src]))
-    # the property itself
+    # correspondence: the labelling the current source produces according to the extracted facts (Lean mapDfOf)
+    ctx.corr(got, want_model, 'map_neuronlist_df: (id written into the frame, frame) pairs vs Lean mapDfOf on the extracted facts', case)
+    # the property itself (unsuppressed): every surviving neuron's frame carries its own id, failing neurons remove only themselves
     want = [(i, single[i]) for i in range(n) if i not in fails]
     surv = [i for i in range(n) if i not in fails]
-    misaligned_class = bool(fails) and any(f < s_ for f in fails for s_ in surv)
-    if got != want:
-        # wrong labels: is it exactly the labelling the code as written (Lean mapDfW) produces?  (A repaired navis that
-        # labels correctly is not held against the as-written model.)
-        ctx.corr(got, want_model, 'map_neuronlist_df: (id written into the frame, frame) pairs vs Lean mapDfW', case)
-    else:
-        ctx.count('mapdf_labels', 'correct')
-    ctx.oracle(got == want, f'segment_analysis(NeuronList, omit_failures=True): frames are labelled with the wrong neuron ids: '
-               f'got ids {[g[0] for g in got]} for the results of neurons {surv}', case,
-               signature='map_neuronlist_df/omit_failures/ids-misaligned' if (misaligned_class and got == want_model) else None)
+    ctx.oracle(got == want, f'segment_analysis(NeuronList, omit_failures={omit}): frames are labelled with the wrong neuron ids: '
+               f'got ids {[g[0] for g in got]} for the results of neurons {surv} (failing: {fails})', case)
 
 
 # ---- other distributors -------------------------------------------------------------------------
